@@ -179,6 +179,8 @@ where
                     config.failure_persistence = None;
                     config.rng_seed = RngSeed::Fixed(seed);
                     config.max_shrink_iters = 4000;
+                    // shrinking only affects how small the replay is, never the verdict: cap its wall time
+                    config.max_shrink_time = 90_000;
                     config.max_global_rejects = 1 << 20;
                     config.verbose = 0;
                     let mut runner = TestRunner::new(config);
